@@ -88,7 +88,7 @@ class VEvent:
 		return self.flag
 
 	# --- harness side (gated mode) ---
-	def release(self, n, timeout = 20.0):
+	def release(self, n, timeout = 300.0):
 		""" Let the worker perform n ticks and wait until it is blocked again
 		    (or has exited).  Returns False on timeout. """
 		import time as _t
